@@ -87,6 +87,12 @@ def lower_spec(spec: dict) -> dict:
         c = m["force_cell"]
         mat = {k: _tier_value(t, _BG[k]) for k, t in tiers.items() if t}
         objs.append({"kind": "box", "name": "tierforce", "box": [[int(c[a]), int(c[a]) + 1] for a in range(3)], "material": mat, "order": 0})
+    # optional dispersive boxes: they only contribute the pole-coefficient arrays (the per-cell eps/mu/sigma arrays are
+    # overwritten afterwards), i.e. a random non-dispersive tensor background with Lorentz/Drude poles in some cells
+    for i, d in enumerate(m.get("disp_objects", [])):
+        mat = {k: _BG[k] for k, t in tiers.items() if t}  # isotropic at placement (plane sources are applied against it)
+        mat["dispersion"] = d["dispersion"]
+        objs.append({"kind": "box", "name": f"disp{i}", "box": d["box"], "material": mat, "order": 1 + i})
     s["materials"] = {"mode": "objects", "background": bg, "objects": objs}
     return s
 
@@ -477,6 +483,18 @@ def rand_tensor_materials(r, shape, tiers=("iso", "diag", "full"), mu=True, sigm
         cell.append(int(ok[int(r.integers(0, len(ok)))]))
     m["force_cell"] = cell
     return m
+
+
+def add_dispersive_boxes(r, spec: dict, p: float = 0.35, per_axis: bool = True):
+    """With probability p give a tensor_arrays spec 1-2 dispersive boxes (in place). Draws from r either way."""
+    from fdsim import specgen
+
+    use = bool(r.uniform() < p)
+    n = int(r.integers(1, 3))
+    boxes = [{"box": specgen.rand_box(r, spec["shape"], min_size=2), "dispersion": specgen.rand_dispersion(r, p_per_axis=0.35 if per_axis else 0.0)} for _ in range(n)]
+    if use:
+        spec["materials"]["disp_objects"] = boxes
+    return use
 
 
 def plane_source_planes(sources) -> list[tuple[int, int]]:
